@@ -75,7 +75,7 @@ func runC02(c run.Ctx) *core.CaseResult {
 		cfg.Bits = 24
 	}
 	u := gen.MakeUniverse(r, cfg.Primary, 4+r.IntN(30))
-	p := seq.Profile{N: 60 + r.IntN(140), Keys: len(u.Keys), Iter: true, Reopen: true, GC: cfg.Primary == gen.MH, FlushBeforeGC: true, GCLimit: true, NoPrimLimit: true, RemoveHeavy: r.IntN(2) == 0}
+	p := seq.Profile{N: 60 + r.IntN(140), Keys: len(u.Keys), Iter: true, Reopen: true, GC: cfg.Primary == gen.MH, FlushBeforeGC: true, GCLimit: true, RemoveHeavy: r.IntN(2) == 0}
 	if cfg.Bits == 24 {
 		p.N = 40
 	}
@@ -142,7 +142,7 @@ func c13SeqCase(c run.Ctx) seqCase {
 	cfg := smallMHConfig(r)
 	cfg.Immutable = r.IntN(6) == 0
 	u := gen.MakeUniverse(r, cfg.Primary, 4+r.IntN(20))
-	p := seq.Profile{N: 60 + r.IntN(120), Keys: len(u.Keys), GC: true, GCLimit: true, FlushBeforeGC: true, NoPrimLimit: true, FlushEvery: true, Reopen: r.IntN(3) == 0, RemoveHeavy: true, NoHuge: true}
+	p := seq.Profile{N: 60 + r.IntN(120), Keys: len(u.Keys), GC: true, GCLimit: true, FlushBeforeGC: true, FlushEvery: true, Reopen: r.IntN(3) == 0, RemoveHeavy: true, NoHuge: true}
 	ops := seq.GenOps(r, p)
 	return seqCase{cfg, u, ops}
 }
